@@ -358,4 +358,4 @@ def run(ctx):
     for prof in sorted(PROFILES):
         if only and prof not in only.split(","):
             continue
-        ctx.explore(("c01", prof, ctx.tier), time_budget=None if ctx.tier == "quick" else 300)
+        ctx.explore(("c01", prof, ctx.tier), time_budget=None if ctx.tier == "quick" else 150)
